@@ -187,10 +187,10 @@ type crSess struct {
 	steps       int
 	stepKind    []string
 	recording   bool
-	intents     []string // the session's intent lines (for the real-kill child)
+	intents     []string       // the session's intent lines (for the real-kill child)
 	vlogOf      map[string]int // "hexkey@version" -> value-log file holding the value
 	vlogOrder   []string       // the same keys in the order they were written
-	base        int      // events of earlier recordings in this session
+	base        int            // events of earlier recordings in this session
 	st          *Stats
 }
 
@@ -1896,7 +1896,7 @@ func (s *crSess) gc(emit func(string, string), fail func(string)) {
 	}
 	// where the moved values live now, and in which batch the memtable was rotated
 	rots := make([]int, len(batches))
-	bi, inBatch, skipHdr, newFid := 0, 0, false, 0
+	bi, inBatch, newFid := 0, 0, 0
 	mi := 0
 	for _, e := range s.events {
 		if e.step != s.steps || e.tok == "" {
@@ -1914,12 +1914,7 @@ func (s *crSess) gc(emit func(string, string), fail func(string)) {
 			if bi < len(rots) {
 				rots[bi] = 1
 			}
-			skipHdr = true
-		case e.Kind == badger.VevWrite && strings.HasSuffix(e.file, ".mem"):
-			if skipHdr {
-				skipHdr = false
-				continue
-			}
+		case e.Kind == badger.VevWrite && strings.HasSuffix(e.file, ".mem") && e.A >= 20:
 			inBatch++
 			if bi < len(batches) && inBatch == batches[bi] {
 				bi, inBatch = bi+1, 0
